@@ -158,10 +158,10 @@ def rule_under_lock(ctx):
 
 
 def run(ctx):
-    rule_pairing(ctx)
-    rule_reentry(ctx)
-    rule_order(ctx)
-    rule_under_lock(ctx)
+    ctx.guard(rule_pairing)
+    ctx.guard(rule_reentry)
+    ctx.guard(rule_order)
+    ctx.guard(rule_under_lock)
 
 
 # ---------------------------------------------------------------------------
@@ -370,9 +370,9 @@ _run0 = run
 
 def run(ctx):   # noqa: F811
     _run0(ctx)
-    rule_wakeups(ctx)
+    ctx.guard(rule_wakeups)
     from . import c02
-    c02.rule_a7(ctx)
+    ctx.guard(c02.rule_a7)
     for rr in ctx.rules:
         if rr.id == "C02.A7":
             rr.id = "C10.R6"
